@@ -27,9 +27,12 @@ ObjRun(o, steps, encs, i) ==
              o2 == CASE st.k = "set" -> [o EXCEPT !.names[st.i] = st.name]
                      [] st.k = "del" -> [o EXCEPT !.names = SubSeq(@, 1, st.i - 1) \o SubSeq(@, st.i + 1, Len(@))]
                      [] st.k = "app" -> [o EXCEPT !.names = Append(@, st.name)]
+                     [] st.k = "reparse" -> ObjParse(st.name, LabelDecode(st.name).names)      \* decoded again into the same object
                      [] st.k = "swap" -> [o EXCEPT !.names[st.i] = o.names[st.j], !.names[st.j] = o.names[st.i]]
                      [] OTHER -> o
-         IN encs[i + 1] = ObjEncode(o2) /\ ObjRun(o2, steps, encs, i + 1)
+         IN /\ encs[i + 1] = ObjEncode(o2)
+            /\ (st.k = "reparse" => LabelAgrees(st.name, TRUE, st.got))
+            /\ ObjRun(o2, steps, encs, i + 1)
 AgreeObj(e) == /\ ~Has(e.out, "panic")
                /\ LabelAgrees(e["in"], e.out.ok, e.out.names)
                /\ LET o == ObjParse(e["in"], e.out.names) IN
